@@ -31,6 +31,11 @@ def run(ctx):
         nr = 24000 if ctx.thorough() else 1600
         for i in range(nsh):
             jobs.append(("rnd:%s:%d" % (k, i), [exe, "rnd", k, str(nr), str(i), str(nsh), str(ctx.seed)]))
+    # weak-memory correspondence: the real UniqueIndexSet run with injected C11-permitted stale head words
+    # against the release/acquire view model (kind label uis: same access sites as the step model)
+    nra = 32000 if ctx.thorough() else 3200
+    for i in range(nsh):
+        jobs.append(("ras:uis:%d" % i, [exe, "ras", "uis", str(nra), str(i), str(nsh), str(ctx.seed), "50"]))
     if ctx.thorough():
         # the 2^16-update witness with every access gated: 327698 accesses compared with the model
         jobs.append(("wrap:gated", [exe, "wrap", "1"]))
@@ -47,6 +52,13 @@ def run(ctx):
                 "is evaluated as a boolean on every model state visited; the property oracle runs on the implementation's own return values. "
                 "distinct = distinct event traces; non-trivial = at least one store/successful CAS" % (bound, maxexecs),
         "exhaustive": False,
+        "weak_memory_correspondence": {
+            "rule": "seeded random programs (2..3 threads x 2..6 ops) and schedules of the REAL FixedSizeUniqueIndexSet in which the value returned by a load or a failed compare-exchange of the head word is "
+                    "replaced, with probability 1/2, by an older head word not older than what the thread has seen (sched::stale_enable); the driver lets the view model (UniqueIndexSetRA.v, code ordering table) "
+                    "choose its staleness oracle from the observed value and compares every access, return value and the final state; the invariant of the step model is evaluated on every model state and the "
+                    "property oracle on the implementation's returns (the Relaxed observers borrowed_indices / is_locked and the OutOfIndices / IsLocked verdicts may refer to an older head word)",
+            "executions": nra, "stale_values_injected": r["extra"].get("stale_values_injected", 0),
+            "executions_with_stale_value": r["extra"].get("executions_with_stale_value", 0)},
         "spec_oracle": "no index returned Ok while another holder owns it (owner = from acquire's return to release's return; robust: to the start of the release call or of the recover call that took it); "
                        "index < capacity; OutOfIndices only if at some instant of the call all indices were taken (held, or inside a concurrent acquire/release call); "
                        "IsLocked / is_locked only after a LockIfLastIndex release (robust: or recover) that could have locked; no Ok after Locked was returned; Locked only with no other owner; "
